@@ -7,8 +7,8 @@ HERE = os.path.dirname(os.path.dirname(os.path.abspath(__file__)))
 
 # property -> (world(s), level, technique, level text, level note, design ref)
 CLAIMED = {
-    "C24": ("rpc", "exploration",
-            "deterministic simulation of the real rpc.Engine under a seeded token-passing scheduler; history oracle on output writes vs. return events",
+    "C24": ("rpc,wire", "exploration",
+            "deterministic simulation of the real rpc.Engine under a seeded token-passing scheduler; history oracle on output writes vs. return events; plus (world wire) the real mtproto.Conn answered in every result form (plain / gzip-packed / in a container, value or rpc_error, duplicates, foreign ids) with a completion oracle",
             "Seeded search over schedules and notification/cancel/close fault sequences of the real rpc.Engine; every Do call's output writes, their addressee and their position relative to the return event are checked on the recorded history. Sampling: a clean batch is evidence, not proof; the interleavings that matter (handler fetched, caller returns, handler decodes) need a specific 3-step order that only a controlled scheduler produces.",
             "Trusted: the instrumenter's rewrite of select/chan/go/sync preserves semantics; the harness send/drop/decoder stubs; testing/synctest's fake clock.",
             "DESIGN.md §6 C24"),
